@@ -288,8 +288,9 @@ def check(ctx):
             else:
                 rep.proved("R-C65-consume", f"{f.module.relpath}:{f.qualname}", "argument sequences are only forwarded (starred, zipped or passed on)")
     rep.floor("map/starmap methods checked for premature consumption", n_cons, 3)
-    from .c65_extra import check_extra
+    from .c65_extra import check_extra, repo_backends
     check_extra(ctx, rep, base, execs, cfgs)
+    repo_backends(ctx, rep, base, execs)
     return rep
 
 
